@@ -17,6 +17,7 @@
 #include <foonathan/memory/container.hpp>
 #include <foonathan/memory/std_allocator.hpp>
 #include <foonathan/memory/memory_resource_adapter.hpp>
+#include <foonathan/memory/fallback_allocator.hpp>
 
 namespace foonathan
 {
@@ -291,6 +292,11 @@ namespace cs
     // std_allocator over a memory_resource_allocator whose resource is a memory_resource_adapter around a leaf
     template <class U>
     using AlPmr = fm::std_allocator<U, fm::memory_resource_allocator>;
+    // std_allocator over a fallback_allocator whose default is a node-only composable leaf with a small budget
+    // (arrays reach it through the default array functions of the composable traits) and whose fallback is a full leaf
+    using FbCA = fm::fallback_allocator<LeafC, LeafA>;
+    template <class U>
+    using AlFb = fm::std_allocator<U, FbCA>;
 
     struct ContCtx
     {
